@@ -114,6 +114,10 @@ def dec(v):
             return datetime.timedelta(seconds=v['$td'])
         if '$arr' in v:
             return ArrayFormula(v['$arr'][0], v['$arr'][1])
+        if '$table' in v:
+            # a what-if data table ({=TABLE(..)}): the reader hands it over as an object of its own
+            from openpyxl.worksheet.formula import DataTableFormula
+            return DataTableFormula(ref=v['$table'][0], r1=v['$table'][1], dt2D=False)
     return v
 
 
